@@ -24,7 +24,7 @@ ASSUMPTIONS = ["message IDs are assigned at submission, which gives an independe
                "an exchange ends when an ACK/RST with its MID from its remote is delivered, when its retransmissions are "
                "exhausted, or when a transport error for the remote is delivered"]
 EXPECTED_PROBES = ["server_originated_con", "backlog_depth_1", "backlog_depth_3", "release_after_ack", "release_after_rst", "flush_by_giveup",
-                   "flush_by_icmp", "non_while_blocked", "other_remote_while_blocked", "unsendable_message", "response_before_exchange_end", "request_cancelled_by_application"]
+                   "flush_by_icmp", "non_while_blocked", "other_remote_while_blocked", "unsendable_message", "response_before_exchange_end", "request_cancelled_by_application", "garbage_collected_mid_run"]
 
 REACTIONS = ["ack", "ack_sep", "piggy", "rst", "silent"]
 
@@ -67,8 +67,10 @@ def gen(r, tier):
             ops.append({"op": "cancel", "t": round(o["t"] + r.choice([0.0, 0.001, 0.02, 0.1, 0.4]), 4), "of_t": o["t"],
                         "nth": r.randrange(4)})
     ops.sort(key=lambda o: o["t"])
+    # the garbage collector (off otherwise) runs at these instants; the application forgets finished requests
+    gc_at = sorted(round(r.uniform(0, t + 3), 3) for _ in range(r.choice([0, 0, 2, 5, 12])))
     return {"npeers": npeers, "ops": ops, "senderr": round(r.uniform(0.02, 0.15), 3) if r.chance(0.12) else 0,
-            "same_host": r.chance(0.3), "v4": r.chance(0.15)}
+            "same_host": r.chance(0.3), "v4": r.chance(0.15), "gc_at": gc_at}
 
 
 def systematic(tier):
@@ -86,6 +88,11 @@ def systematic(tier):
             if k == "icmp":
                 ops.append({"op": "icmp", "t": 0.1 + 0.35 * i, "peer": 0, "errno": 111})
         out.append({"npeers": 2, "ops": ops, "senderr": 0})
+        if combo == ("ack", "ack", "ack"):
+            # the same with the collector running between every two steps
+            out.append({"npeers": 2, "ops": [dict(o) for o in ops] + [{"op": "req", "t": 0.3, "peer": 0, "con": True, "react": "ack", "delay": 0.2,
+                                                                     "mr": 1, "ato": 0.5}],
+                        "senderr": 0, "gc_at": [round(0.05 * i, 3) for i in range(1, 40)]})
     # cancelled while held back: which of the queued requests, and what is submitted afterwards
     for which in (1, 2):
         for n_queued in (1, 2):
@@ -230,9 +237,25 @@ def execute(sim, scn):
         if op.get("bad"):
             msg.payload = "text, not bytes: cannot be serialised"
             sim.probe("unsendable_message")
-        tracker.start(tag, client, msg, handle_blockwise=False)
+        rec = tracker.start(tag, client, msg, handle_blockwise=False)
         submitted.append((loop.now, tag, op["peer"], op["con"]))
+        if scn.get("gc_at"):
+            # the application keeps nothing of a request once it has its outcome: request, message and response objects
+            # become garbage (cyclic garbage: freed when the collector runs, which the scenario schedules)
+            def forget(f, rec=rec):
+                rec["response_code"] = str(rec["response"].code) if rec.get("response") is not None else None
+                rec["req"] = rec["msg"] = None
+                rec.pop("response", None)
+            rec["req"].response.add_done_callback(forget)
+        del rec, msg
 
+    import gc
+
+    def collect():
+        sim.probe("garbage_collected_mid_run")
+        gc.collect()
+    for tg in scn.get("gc_at") or []:
+        loop.at(tg, collect)
     icmps = []
     for tag, op in enumerate(scn["ops"]):
         if op["op"] == "req":
